@@ -69,6 +69,7 @@ def run(chk):
         if aab:
             rule_outer(chk, aab, pd)
     rule_params(chk)
+    rule_lang_slot_eval(chk)
     rule_source(chk)
 
 
@@ -128,6 +129,85 @@ def rule_alloc_eval(chk, aab):
     chk.floor("C06.floor/alloc-evaluations", n, 400, "allocator evaluations", where(aab))
     for k_ in ("C06.bump/slice-cost", "C06.bump/used_slots/slot/increment", "C06.skip/only-objects", "C06.skip/static-samplers", "C06.group/default"):
         chk.ob(k_, True, "decided by the evaluated allocator (C06.alloc/*)", where(aab), trivial=True)
+    return True
+
+
+def rule_lang_slot_eval(chk):
+    """parse_rootdefinition_globalvariable read as a table: statements with one to three declarators, each with or without
+    register(..) annotations (slot, space, both), with and without the binding-index / bind-group attributes. Every global
+    must get the binding written on ITS declarator (none -> no explicit group and slot, so the default group applies),
+    overridden by the attributes; the declarators of one statement do not influence each other."""
+    import interp as I
+    import itertools
+    f = chk.facts
+    fn = f.fn("parse_rootdefinition_globalvariable", "rssl_typer")
+    if not fn:
+        return False
+    opt = lambda v: I.Enum("Option", "None") if v is None else I.Enum("Option", "Some", {"0": v})
+    ok = lambda v: I.Enum("Result", "Ok", {"0": v})
+    loc = lambda v: I.Enum("Located", None, {"node": v, "location": I.Opaque("location")})
+    tid = I.Enum("TypeId", None, {"0": 5})
+
+    def deref(v):
+        return v.get() if isinstance(v, I.Ref) else v
+
+    def run(decls, idx_over, grp_over):
+        reg = []
+
+        def insert_global(a):
+            reg.append(I.Enum("GlobalVariable", None, {"name": deref(a[1]), "type_id": deref(a[2]), "storage_class": deref(a[3]), "namespace": opt(None),
+                                                       "lang_slot": I.Enum("LanguageBinding", None, {"set": opt(None), "index": opt(None)}), "api_slot": opt(None), "init": opt(None),
+                                                       "static_sampler": opt(None), "constexpr_value": opt(None), "is_intrinsic": False, "is_bindless": False}))
+            return ok(I.Enum("GlobalId", None, {"0": len(reg) - 1}))
+        ext = {"parse_globaltype": lambda a: ok((tid, I.Enum("GlobalStorage", "Extern"))),
+               "parse_attributes_for_global": lambda a: ok(I.Enum("GlobalAttributeResult", None, {"binding_index_override": opt(idx_over), "binding_group_override": opt(grp_over), "is_bindless": False})),
+               "parse_declarator": lambda a: ok((tid, I.Enum("ScopedIdentifier", None, {"base": I.Enum("ScopedIdentifierBase", "Relative"), "identifiers": [loc(deref(a[0]).fields["tag"])]}))),
+               "is_illegal_variable_name": lambda a: False, "parse_initializer_opt": lambda a: ok(opt(None)), "insert_global": insert_global,
+               "TypeRegistry::remove_modifier": lambda a: a[1], "TypeRegistry::extract_modifier": lambda a: (a[1], I.Opaque("modifier")),
+               "TypeRegistry::get_type_layer": lambda a: I.Enum("TypeLayer", "Object", {"0": I.Enum("ObjectType", "Texture2D", {"0": I.Enum("TypeId", None, {"0": 1})})})}
+        defs = []
+        for name, ann in decls:
+            las = [] if ann is None else [I.Enum("LocationAnnotation", "Register", {"0": I.Enum("Register", None, {
+                "slot": opt(I.Enum("RegisterSlot", None, {"slot_type": I.Enum("RegisterType", "T"), "index": ann[0]}) if ann[0] is not None else None), "space": opt(ann[1])})})]
+            defs.append(I.Enum("InitDeclarator", None, {"declarator": I.Enum("Declarator", "Tagged", {"tag": name}), "location_annotations": las, "init": opt(None)}))
+        gv = I.Enum("GlobalVariable", None, {"global_type": I.Opaque("type"), "defs": defs, "attributes": []})
+        ctx = I.Enum("Context", None, {"module": I.Enum("Module", None, {"global_registry": reg, "type_registry": I.Opaque("type registry")})})
+        r = I.Interp(f, max_depth=6, extern=ext).apply(fn, [gv, ctx])
+        flat = lambda o: o.fields["0"] if isinstance(o, I.Enum) and o.variant == "Some" else None
+        return (isinstance(r, I.Enum) and r.variant == "Ok", [(flat(g.fields["lang_slot"].fields["set"]), flat(g.fields["lang_slot"].fields["index"])) for g in reg])
+    anns = [None, (3, None), (None, 2), (4, 1)]
+    show = lambda a: "" if a is None else " : register(%s)" % ", ".join(x for x in ("t%d" % a[0] if a[0] is not None else None, "space%d" % a[1] if a[1] is not None else None) if x)
+    bad = {}
+    n = 0
+    for count in (1, 2, 3):
+        for combo in itertools.product(anns, repeat=count):
+            if count == 3 and combo[1] is not None and combo[0] is not None:
+                continue
+            for idx_over, grp_over in ((None, None), (7, None), (None, 6)):
+                decls = [("g%d" % i, a) for i, a in enumerate(combo)]
+                try:
+                    accepted, got = run(decls, idx_over, grp_over)
+                except I.Unknown as e:
+                    if "panicking" in str(e):
+                        bad.setdefault("aborts", "parse_rootdefinition_globalvariable aborts on `Texture2D %s;` (%s)" % (", ".join(nm + show(a) for nm, a in decls), str(e)[:60]))
+                        continue
+                    chk.note("C06.lang: parse_rootdefinition_globalvariable is not readable (%s); the value-origin rule decides" % str(e)[:80])
+                    return False
+                n += 1
+                want = [((grp_over if grp_over is not None else (a[1] if a else None)), (idx_over if idx_over is not None else (a[0] if a else None))) for a in combo]
+                text = "`Texture2D %s;`%s" % (", ".join(nm + show(a) for nm, a in decls), "" if (idx_over, grp_over) == (None, None) else " with attribute override (index %s, group %s)" % (idx_over, grp_over))
+                key = "%d-declarator%s" % (count, "" if (idx_over, grp_over) == (None, None) else "/override")
+                if not accepted:
+                    bad.setdefault(key, "%s is refused" % text)
+                elif got != want:
+                    k = [i for i in range(min(len(got), len(want))) if got[i] != want[i]]
+                    bad.setdefault(key, "%s: g%d gets explicit (group, slot) %s, its own declarator says %s - a resource without an explicit group no longer goes to the pipeline's default group" % (
+                        text, k[0], got[k[0]], want[k[0]]) if k else "%s registers %d globals" % (text, len(got)))
+    for key in ("1-declarator", "2-declarator", "3-declarator", "1-declarator/override", "2-declarator/override", "3-declarator/override", "aborts"):
+        if key == "aborts" and key not in bad:
+            continue
+        chk.ob("C06.lang/" + key, key not in bad, bad.get(key) or "every global gets the binding of its own declarator", where(fn), sample={"case": key})
+    chk.floor("C06.floor/lang-slot-cases", n, 100, "global variable statements evaluated", where(fn))
     return True
 
 
